@@ -48,7 +48,7 @@ def boundTo : Except Err Bound → Sexp
   | .ok b => .list [.atom "bound", ofList kvTo b.named, ofList vTo b.star, ofList kvTo b.dstar]
 
 def conv : String → List Sexp → Option Sexp
-  | "conv.basic", [s, p] => do pure (boundTo (basicCall (← sigOf s) (← payloadOf p)))
+  | "conv.basic", [s, p] => do pure (boundTo (basicCallChecked (← sigOf s) (← payloadOf p)))
   | "conv.pydantic", [s, p] => do pure (boundTo (pydanticCall (← sigOf s) (← payloadOf p)))
   | "conv.spec", [s, p] => do pure (boundTo (spec (← sigOf s) (← payloadOf p)))
   | "conv.call", [s, a, k] => do pure (boundTo (call (← sigOf s) (← mapM? vOf a) (← mapM? kvOf k)))
